@@ -61,7 +61,7 @@ fn split(q: &str) -> Vec<String> {
 fn near_miss(rng: &mut Rng, key: &str) -> String {
     let segs = split(key);
     let (pkg, name) = (segs[..segs.len() - 1].join("."), segs[segs.len() - 1].clone());
-    match rng.below(8) {
+    match rng.below(11) {
         0 => format!("{pkg}.X{name}"),
         1 => format!("{pkg}.{name}X"),
         2 => format!("other.{pkg}.{name}"),
@@ -69,6 +69,11 @@ fn near_miss(rng: &mut Rng, key: &str) -> String {
         4 if name.len() > 1 => format!("{pkg}.{}", &name[1..]),
         5 => format!("x{pkg}.{name}"),
         6 => format!("{pkg}.{name}{name}"),
+        // an import that names something "inside" a registered item / whose prefix is a registered key
+        7 => format!("{pkg}.{name}.Inner"),
+        8 => format!("{pkg}.{name}.{name}"),
+        // the qualifier only shares a tail of a segment (x.apkg.Foo vs pkg.Foo)
+        9 => format!("x.a{pkg}.{name}"),
         _ => format!("nope.{name}"),
     }
 }
@@ -77,6 +82,33 @@ pub fn render_text(doc: &Doc, rng: &mut Rng) -> String {
     let r = gen::render(doc);
     let style = *rng.pick(&[LayoutStyle::Spaces, LayoutStyle::Spaces, LayoutStyle::Plain]);
     gen::layout(&r.toks, rng, style, &r.forced).text
+}
+
+/// Like render_text, but once in a while one malformed member (`= = ;`, or `= = ,` in an enum) is spliced in
+/// front of a member or before the closing brace: the file still yields a tree (error recovery) plus a syntax
+/// diagnostic, and every validation rule must apply to that tree as to any other.
+pub fn render_text_maybe_broken(doc: &Doc, rng: &mut Rng) -> String {
+    if !rng.chance(1, 12) {
+        return render_text(doc, rng);
+    }
+    let r = gen::render(doc);
+    let item = &r.exp.item;
+    let n = item.children.len();
+    let pos = rng.below(n + 1);
+    let at = if pos < n { item.children[pos].anchor } else { item.last };
+    let sym = |t: &str, k: crate::reflex::K| gen::Tok { text: t.to_string(), kind: k };
+    use crate::reflex::K;
+    let mut toks: Vec<gen::Tok> = r.toks[..at].to_vec();
+    let is_enum = doc.item.kind == ItemKind::Enum;
+    if is_enum && pos == n && n > 0 && !doc.item.trailing_comma {
+        toks.push(sym(",", K::Comma));
+    }
+    toks.push(sym("=", K::Eq));
+    toks.push(sym("=", K::Eq));
+    toks.push(if is_enum { sym(",", K::Comma) } else { sym(";", K::Semi) });
+    toks.extend_from_slice(&r.toks[at..]);
+    let style = *rng.pick(&[LayoutStyle::Spaces, LayoutStyle::Plain]);
+    gen::layout(&toks, rng, style, &Default::default()).text
 }
 
 pub fn project(rng: &mut Rng, cfg: &ProjCfg) -> Proj {
@@ -162,6 +194,10 @@ pub fn project(rng: &mut Rng, cfg: &ProjCfg) -> Proj {
                 pool.push(simple[1..].to_string());
             }
             pool.push(format!("other.{i}"));
+            // partial qualification cut inside a segment (kg.Foo for other.pkg.Foo): must not match
+            if segs.len() >= 2 && segs[segs.len() - 2].len() > 1 {
+                pool.push(format!("{}.{}", &segs[segs.len() - 2][1..], simple));
+            }
             // a name the import merely repeats (pkg.FooFoo vs Foo)
             let h = simple.len() / 2;
             if simple.len() >= 2 && simple.len() % 2 == 0 && simple[..h] == simple[h..] {
@@ -218,7 +254,7 @@ pub fn project(rng: &mut Rng, cfg: &ProjCfg) -> Proj {
         item.name = name.clone();
         // method names: bias toward repeats, codes toward repeats (C09)
         let doc = Doc { package: split(pkg), imports: imports.iter().map(|i| split(i)).collect(), declared, item };
-        let text = render_text(&doc, rng);
+        let text = render_text_maybe_broken(&doc, rng);
         files.push(ProjFile { id: format!("f{fi}"), doc, text });
     }
     Proj { files }
